@@ -24,7 +24,8 @@ type OCSPAnswer struct {
 	//       trylater | unauthorized | internal | malformed | sigrequired
 	Kind string `json:"kind"`
 	// Signer: issuer (default) | delegated (issuer-signed, EKU OCSPSigning) | delegated-big | mimic | delegated-noeku |
-	//         delegated-clientauth | client (the client certificate itself) | stranger-embedded | stranger | sibling
+	//         delegated-clientauth | client (the client certificate itself, embedded) | client-bare (client key, nothing embedded) |
+	//         stranger-embedded | stranger | sibling
 	Signer string `json:"signer,omitempty"`
 	// Serial: this (default) | other | both (two single responses: other first, this second is not expressible
 	// with x/crypto/ocsp's builder, so "both" = other only with this serial appended in a second response is skipped)
@@ -136,6 +137,8 @@ func (p *OCSPParties) Build(a OCSPAnswer, serial *big.Int) (body []byte, status 
 		responder, tpl.Certificate = p.ClientEKU, p.ClientEKU.Cert
 	case "client":
 		responder, tpl.Certificate = p.Leaf, p.Leaf.Cert
+	case "client-bare": // signed with the client's own key, no embedded certificate
+		responder = p.Leaf
 	case "stranger-embedded":
 		responder, tpl.Certificate = p.Stranger, p.Stranger.Cert
 	case "stranger":
